@@ -10,6 +10,7 @@ TEXT = {
  'C01': ("TLC exhausts the four planner specifications over lattice worlds (every validity set, start/goal placement, sample sequence and call history within the bounds) with the invariants C01_*; every history TLC emits is executed on the real planner and every recorded event is validated by the TLC trace monitor (labels C01/node-valid, C01/path-valid, C01/path-start-invalid, C01/path-goalroot-invalid, C01/root-start); recorded runs on the six real spaces are validated by the same monitor", "6 C01"),
  'C02': ("as C01 with invariants C02_Endpoints and monitor labels C02/nonempty, C02/first, C02/last-goal over call histories with re-setup and PRM problem replacement", "6 C02"),
  'C03': ("invariants C03_LinksCovered / C03_PathFollowsLinks on the models (the code's discretisation implies the property-level Covers predicate); on the implementation the monitor demands Covers(accepted queries, segment, lvs) for every link created (extension, choose-parent, rewire, connection, PRM link, start connection) and that every path pair is such a link", "6 C03"),
+ 'C04': ("model theorem checked by TLC on every tree-planner spec: a geodesically convex region containing start, goal and samples is never left (C04_InRegion; with a non-convex region - a ring arc longer than half the ring - TLC produces the escape, the abstract form of the SO(2) seam defect); binding to the real spaces: recorded runs on boxes, angular intervals, cones and compounds with in-bounds start/goal, monitor label C04/in-bounds on satisfies_bounds of every path state", "6 C04"),
  'C05': ("model invariants C05_Step / C05_Radius (half-integer radii exercise strictness) and monitor label C05/edge-length on every link and path pair", "6 C05"),
  'C06': ("logical time: the deadline is examined at loop tops only (model); on the implementation a virtual clock (hook) makes time a scripted counter, the monitor flags an iteration that starts after the deadline (C06/deadline-at-top), a call that never returns (C06/no-return) or an unbounded motion check (C06/unbounded); model invariant Ok => goal reachable through valid points", "6 C06"),
  'C07': ("generator provenance in the models (C07_Provenance with the RestoreRng / SetupUsesPlannerRng switches); on the implementation two instances with the same seed are driven through every TLC-generated call history and the monitor requires identical generator draws and results call by call (C07/stream, C07/result)", "6 C07"),
